@@ -1176,14 +1176,12 @@ func (nz *normaliser) expandBody(h *helper, call *ast.CallExpr, lhs []ast.Expr, 
 		nzWhy(h, "bindings not supported at %s", nz.p.Fset.Position(call.Pos()))
 		return nil
 	}
-	if !nz.freeOK(h, h.decl.Body, nz.pk, nz.file, call.Pos()) || !nz.freeOK(h, h.decl.Type, nz.pk, nz.file, call.Pos()) {
+	if !nz.freeOK(h, h.decl.Body, nz.pk, nz.file, call.Pos()) {
 		nzWhy(h, "free identifier means something else at %s", nz.p.Fset.Position(call.Pos()))
 		return nil
 	}
-	if h.decl.Recv != nil && !nz.freeOK(h, h.decl.Recv.List[0].Type, nz.pk, nz.file, call.Pos()) {
-		nzWhy(h, "receiver type not visible at call")
-		return nil
-	}
+	// (the types of the signature are checked where a declaration with that type is actually written: a parameter that
+	// is substituted needs none)
 	// clone the body, remembering which identifiers are which parameter and which name something the helper declares
 	nz.seq++
 	sfx := fmt.Sprintf("Zq%d", nz.seq)
@@ -1289,6 +1287,10 @@ func (nz *normaliser) expandBody(h *helper, call *ast.CallExpr, lhs []ast.Expr, 
 			substExpr[b] = b.arg
 			continue
 		}
+		if !nz.freeOK(h, b.typ, nz.pk, nz.file, call.Pos()) {
+			nzWhy(h, "the type of parameter %s means something else at the call", b.name)
+			return nil
+		}
 		pname := b.name + sfx
 		for _, u := range uses[b] {
 			u.Name = pname
@@ -1322,6 +1324,9 @@ func (nz *normaliser) expandBody(h *helper, call *ast.CallExpr, lhs []ast.Expr, 
 				}
 				named = append(named, rn)
 				if nm.Name != "_" {
+					if !nz.freeOK(h, fld.Type, nz.pk, nz.file, call.Pos()) {
+						return nil
+					}
 					binds = append(binds, &ast.DeclStmt{Decl: &ast.GenDecl{Tok: token.VAR, Specs: []ast.Spec{&ast.ValueSpec{
 						Names: []*ast.Ident{ast.NewIdent(rn)}, Type: cloneNode(fld.Type)}}}})
 					binds = append(binds, &ast.AssignStmt{Lhs: []ast.Expr{ast.NewIdent("_")}, Tok: token.ASSIGN, Rhs: []ast.Expr{ast.NewIdent(rn)}})
@@ -1460,7 +1465,19 @@ func (nz *normaliser) expandBody(h *helper, call *ast.CallExpr, lhs []ast.Expr, 
 						skip = true
 					}
 				}
-				if !skip {
+				switch {
+				case skip:
+				case len(res) == len(lhs) && k.nilIdx >= 0 && k.nilIdx < len(res) && k.ifs.Else == nil && evidentlyNonNil(res[k.nilIdx]):
+					// the tested result is a freshly built error: the caller's branch is taken for certain. If that branch is a
+					// single return that hands the results on, the values are put into it directly (`return nil, &Error{…}`,
+					// which is what stood here before the helper was extracted)
+					body := cloneNode(k.ifs.Body).List
+					if r, ok := singleReturn(body); ok && substResults(r, lhs, res) {
+						out = []ast.Stmt{r}
+					} else {
+						out = append(out, body...)
+					}
+				default:
 					out = append(out, cloneNode(k.ifs))
 				}
 			}
@@ -1557,6 +1574,106 @@ func freeBreak(n ast.Node) bool {
 	}
 	walk(n, false)
 	return found
+}
+
+// evidentlyNonNil: the expression builds a new value (an error constructor, &T{…}).
+func evidentlyNonNil(e ast.Expr) bool {
+	switch x := ast.Unparen(e).(type) {
+	case *ast.UnaryExpr:
+		if x.Op == token.AND {
+			_, isLit := ast.Unparen(x.X).(*ast.CompositeLit)
+			return isLit
+		}
+	case *ast.CallExpr:
+		if sel, ok := ast.Unparen(x.Fun).(*ast.SelectorExpr); ok {
+			if pk, ok := sel.X.(*ast.Ident); ok {
+				switch pk.Name + "." + sel.Sel.Name {
+				case "fmt.Errorf", "errors.New":
+					return true
+				}
+			}
+		}
+	}
+	return false
+}
+
+func singleReturn(list []ast.Stmt) (*ast.ReturnStmt, bool) {
+	if len(list) != 1 {
+		return nil, false
+	}
+	r, ok := list[0].(*ast.ReturnStmt)
+	return r, ok
+}
+
+// substResults replaces, in the results of r, every receiving variable by the value it was about to receive. It succeeds
+// only if the variables occur there as plain results (and at most once each, so that nothing is evaluated twice).
+func substResults(r *ast.ReturnStmt, lhs, res []ast.Expr) bool {
+	if len(lhs) != len(res) {
+		return false
+	}
+	names := map[string]ast.Expr{}
+	for i, l := range lhs {
+		id, ok := l.(*ast.Ident)
+		if !ok {
+			return false
+		}
+		if id.Name != "_" {
+			names[id.Name] = res[i]
+		} else if !pureSyntax(res[i]) {
+			return false // a discarded result with effects must still be evaluated
+		}
+	}
+	used := map[string]int{}
+	okShape := true
+	for _, e := range r.Results {
+		if id, ok := ast.Unparen(e).(*ast.Ident); ok {
+			if _, is := names[id.Name]; is {
+				used[id.Name]++
+			}
+			continue
+		}
+		ast.Inspect(e, func(n ast.Node) bool {
+			if id, ok := n.(*ast.Ident); ok {
+				if _, is := names[id.Name]; is {
+					okShape = false // used inside a larger expression
+				}
+			}
+			return true
+		})
+	}
+	for name, v := range names {
+		if used[name] > 1 || (used[name] == 0 && !pureSyntax(v)) {
+			okShape = false
+		}
+	}
+	if !okShape {
+		return false
+	}
+	for i, e := range r.Results {
+		if id, ok := ast.Unparen(e).(*ast.Ident); ok {
+			if v, is := names[id.Name]; is {
+				r.Results[i] = v
+			}
+		}
+	}
+	return true
+}
+
+// pureSyntax: identifiers, literals, selectors, nil — nothing that could have an effect.
+func pureSyntax(e ast.Expr) bool {
+	ok := true
+	ast.Inspect(e, func(n ast.Node) bool {
+		switch n.(type) {
+		case *ast.CallExpr, *ast.FuncLit:
+			ok = false
+		case *ast.UnaryExpr:
+			if n.(*ast.UnaryExpr).Op == token.ARROW {
+				ok = false
+			}
+		}
+		return ok
+	})
+	return ok
 }
 
 // selectorChain: x.a.b with x an identifier.
